@@ -1,4 +1,624 @@
-//! C18 — TLS acceptors (filled in later).
-use crate::util::Pki;
-pub fn c18(_line: &str, _pki: &Pki) -> String { "TODO".into() }
-pub fn c18e2e(_line: &str, _pki: &Pki) -> String { "TODO".into() }
+//! C18 — the real rustls-0.23 / OpenSSL acceptor services over in-memory pipes, paused Tokio clock.
+//!
+//! `c18`    poll-level: the case is an op script (poll_ready / call / poll / drop / advance + client moves);
+//!          every op is executed by hand on the real service and futures with counting wakers; the handshake's
+//!          answer to each poll is RECORDED from the wrapped transport (did it block?) and printed as the oracle.
+//! `c18e2e` executor-level: real tasks (`poll_fn(poll_ready).await; call(io).await`) against scripted clients under
+//!          the paused clock with auto-advance; completion times and outcomes are printed.
+use std::{
+    cell::RefCell,
+    future::Future,
+    pin::Pin,
+    rc::Rc,
+    sync::{
+        atomic::{AtomicUsize, Ordering},
+        Arc,
+    },
+    task::{Context, Poll, Wake, Waker},
+    time::Duration,
+};
+
+use actix_service::{Service, ServiceFactory};
+use actix_tls::accept::{max_concurrent_tls_connect, openssl as aossl, rustls_0_23 as arustls, TlsError};
+use tokio::io::{AsyncRead, AsyncReadExt, AsyncWrite, AsyncWriteExt, ReadBuf};
+
+use crate::util::*;
+
+// ------------------------------------------------------------------------------------------
+// counting wakers
+// ------------------------------------------------------------------------------------------
+struct Flag {
+    id: usize,
+    hits: AtomicUsize,
+}
+impl Wake for Flag {
+    fn wake(self: Arc<Self>) {
+        self.hits.fetch_add(1, Ordering::SeqCst);
+    }
+    fn wake_by_ref(self: &Arc<Self>) {
+        self.hits.fetch_add(1, Ordering::SeqCst);
+    }
+}
+#[derive(Default)]
+struct Wakers(Vec<Arc<Flag>>);
+impl Wakers {
+    fn make(&mut self, id: usize) -> Waker {
+        let f = Arc::new(Flag { id, hits: AtomicUsize::new(0) });
+        self.0.push(f.clone());
+        Waker::from(f)
+    }
+    /// ids of the wakers woken since the last call (each listed once), ascending
+    fn take(&mut self) -> Vec<usize> {
+        let mut v: Vec<usize> = self.0.iter().filter(|f| f.hits.swap(0, Ordering::SeqCst) > 0).map(|f| f.id).collect();
+        v.sort();
+        v
+    }
+}
+fn noop_waker() -> Waker {
+    Waker::from(Arc::new(Flag { id: usize::MAX, hits: AtomicUsize::new(0) }))
+}
+
+/// poll a future by hand until it is ready; an in-memory exchange needs no wake-ups, only turns
+fn spin<F: Future + Unpin>(mut f: F, max: usize) -> Option<F::Output> {
+    let w = noop_waker();
+    let mut cx = Context::from_waker(&w);
+    for _ in 0..max {
+        if let Poll::Ready(v) = Pin::new(&mut f).poll(&mut cx) {
+            return Some(v);
+        }
+    }
+    None
+}
+
+// ------------------------------------------------------------------------------------------
+// the two back-ends behind one face
+// ------------------------------------------------------------------------------------------
+enum AnySvc {
+    R(arustls::AcceptorService),
+    O(aossl::AcceptorService),
+}
+enum AnyFut {
+    R(Pin<Box<<arustls::AcceptorService as Service<Mem>>::Future>>),
+    O(Pin<Box<<aossl::AcceptorService as Service<Mem>>::Future>>),
+}
+enum AnyStream {
+    R(arustls::TlsStream<Mem>),
+    O(aossl::TlsStream<Mem>),
+}
+#[derive(Clone, Copy, PartialEq, Debug)]
+enum Outcome {
+    Ok,
+    Tls,
+    Timeout,
+}
+impl Outcome {
+    fn tag(self) -> &'static str {
+        match self {
+            Outcome::Ok => "ok",
+            Outcome::Tls => "tls",
+            Outcome::Timeout => "to",
+        }
+    }
+}
+
+impl AnySvc {
+    fn poll_ready(&self, cx: &mut Context<'_>) -> Poll<bool> {
+        match self {
+            AnySvc::R(s) => <arustls::AcceptorService as Service<Mem>>::poll_ready(s, cx).map(|r| r.is_ok()),
+            AnySvc::O(s) => <aossl::AcceptorService as Service<Mem>>::poll_ready(s, cx).map(|r| r.is_ok()),
+        }
+    }
+    fn call(&self, io: Mem) -> AnyFut {
+        match self {
+            AnySvc::R(s) => AnyFut::R(Box::pin(s.call(io))),
+            AnySvc::O(s) => AnyFut::O(Box::pin(s.call(io))),
+        }
+    }
+}
+impl AnyFut {
+    fn poll(&mut self, cx: &mut Context<'_>) -> Poll<(Outcome, Option<AnyStream>)> {
+        match self {
+            AnyFut::R(f) => f.as_mut().poll(cx).map(|r| match r {
+                Ok(s) => (Outcome::Ok, Some(AnyStream::R(s))),
+                Err(TlsError::Timeout) => (Outcome::Timeout, None),
+                Err(TlsError::Tls(_)) => (Outcome::Tls, None),
+                Err(TlsError::Service(e)) => match e {},
+            }),
+            AnyFut::O(f) => f.as_mut().poll(cx).map(|r| match r {
+                Ok(s) => (Outcome::Ok, Some(AnyStream::O(s))),
+                Err(TlsError::Timeout) => (Outcome::Timeout, None),
+                Err(TlsError::Tls(_)) => (Outcome::Tls, None),
+                Err(TlsError::Service(e)) => match e {},
+            }),
+        }
+    }
+}
+impl Future for AnyFut {
+    type Output = (Outcome, Option<AnyStream>);
+    fn poll(self: Pin<&mut Self>, cx: &mut Context<'_>) -> Poll<Self::Output> {
+        AnyFut::poll(self.get_mut(), cx)
+    }
+}
+impl AsyncRead for AnyStream {
+    fn poll_read(self: Pin<&mut Self>, cx: &mut Context<'_>, buf: &mut ReadBuf<'_>) -> Poll<std::io::Result<()>> {
+        match self.get_mut() {
+            AnyStream::R(s) => Pin::new(s).poll_read(cx, buf),
+            AnyStream::O(s) => Pin::new(s).poll_read(cx, buf),
+        }
+    }
+}
+impl AsyncWrite for AnyStream {
+    fn poll_write(self: Pin<&mut Self>, cx: &mut Context<'_>, buf: &[u8]) -> Poll<std::io::Result<usize>> {
+        match self.get_mut() {
+            AnyStream::R(s) => Pin::new(s).poll_write(cx, buf),
+            AnyStream::O(s) => Pin::new(s).poll_write(cx, buf),
+        }
+    }
+    fn poll_flush(self: Pin<&mut Self>, cx: &mut Context<'_>) -> Poll<std::io::Result<()>> {
+        match self.get_mut() {
+            AnyStream::R(s) => Pin::new(s).poll_flush(cx),
+            AnyStream::O(s) => Pin::new(s).poll_flush(cx),
+        }
+    }
+    fn poll_shutdown(self: Pin<&mut Self>, cx: &mut Context<'_>) -> Poll<std::io::Result<()>> {
+        match self.get_mut() {
+            AnyStream::R(s) => Pin::new(s).poll_shutdown(cx),
+            AnyStream::O(s) => Pin::new(s).poll_shutdown(cx),
+        }
+    }
+}
+
+async fn make_services(pki: &Pki, tr: u64, to: u64) -> (AnySvc, AnySvc) {
+    let mut ra = arustls::Acceptor::new(rustls_server_config(&pki.idents[0]));
+    ra.set_handshake_timeout(Duration::from_millis(tr));
+    let rs = <arustls::Acceptor as ServiceFactory<Mem>>::new_service(&ra, ()).await.unwrap();
+    let mut oa = aossl::Acceptor::new(openssl_acceptor(&pki.idents[0]));
+    oa.set_handshake_timeout(Duration::from_millis(to));
+    let os = <aossl::Acceptor as ServiceFactory<Mem>>::new_service(&oa, ()).await.unwrap();
+    (AnySvc::R(rs), AnySvc::O(os))
+}
+
+// ------------------------------------------------------------------------------------------
+// clients (plain tokio-rustls / tokio-openssl, stepped by hand or run as tasks)
+// ------------------------------------------------------------------------------------------
+enum Client {
+    Raw(Option<tokio::io::DuplexStream>),
+    RustlsHs(Pin<Box<tokio_rustls::Connect<Mem>>>),
+    RustlsUp(tokio_rustls::client::TlsStream<Mem>),
+    OsslHs(tokio_openssl::SslStream<Mem>),
+    OsslUp(tokio_openssl::SslStream<Mem>),
+    Failed,
+    Gone,
+}
+
+fn new_client(kind: char, io: tokio::io::DuplexStream, pki: &Pki) -> Client {
+    match kind {
+        'r' => {
+            let c = tokio_rustls::TlsConnector::from(rustls_client_config(pki));
+            let name = rustls_pki_types::ServerName::try_from("a.test").unwrap();
+            Client::RustlsHs(Box::pin(c.connect(name, Mem::new(io))))
+        }
+        'o' => {
+            let ssl = openssl_connector(pki).configure().unwrap().into_ssl("a.test").unwrap();
+            Client::OsslHs(tokio_openssl::SslStream::new(ssl, Mem::new(io)).unwrap())
+        }
+        _ => Client::Raw(Some(io)),
+    }
+}
+
+impl Client {
+    /// one turn of the client's handshake
+    fn step(&mut self) -> &'static str {
+        let w = noop_waker();
+        let mut cx = Context::from_waker(&w);
+        match std::mem::replace(self, Client::Gone) {
+            Client::RustlsHs(mut f) => match f.as_mut().poll(&mut cx) {
+                Poll::Ready(Ok(s)) => {
+                    *self = Client::RustlsUp(s);
+                    "done"
+                }
+                Poll::Ready(Err(_)) => {
+                    *self = Client::Failed;
+                    "err"
+                }
+                Poll::Pending => {
+                    *self = Client::RustlsHs(f);
+                    "pend"
+                }
+            },
+            Client::OsslHs(mut s) => match Pin::new(&mut s).poll_connect(&mut cx) {
+                Poll::Ready(Ok(())) => {
+                    *self = Client::OsslUp(s);
+                    "done"
+                }
+                Poll::Ready(Err(_)) => {
+                    *self = Client::Failed;
+                    "err"
+                }
+                Poll::Pending => {
+                    *self = Client::OsslHs(s);
+                    "pend"
+                }
+            },
+            other => {
+                let tag = match other {
+                    Client::RustlsUp(_) | Client::OsslUp(_) => "up",
+                    Client::Failed => "err",
+                    Client::Gone => "gone",
+                    _ => "raw",
+                };
+                *self = other;
+                tag
+            }
+        }
+    }
+    fn garbage(&mut self, rng: &mut Rng) -> &'static str {
+        if let Client::Raw(Some(io)) = self {
+            // not a TLS record: an HTTP request line followed by random bytes
+            let mut g = b"GET / HTTP/1.1\r\nHost: a.test\r\n\r\n".to_vec();
+            g.extend(rng.bytes(64));
+            match spin(Box::pin(io.write_all(&g)), 100) {
+                Some(Ok(())) => "sent",
+                _ => "fail",
+            }
+        } else {
+            "n/a"
+        }
+    }
+}
+
+/// exchange random payloads both ways at once and compare byte for byte
+async fn exchange<A, B>(a: &mut A, b: &mut B, pa: &[u8], pb: &[u8]) -> bool
+where
+    A: AsyncRead + AsyncWrite + Unpin,
+    B: AsyncRead + AsyncWrite + Unpin,
+{
+    let (mut ar, mut aw) = tokio::io::split(a);
+    let (mut br, mut bw) = tokio::io::split(b);
+    let w1 = async { aw.write_all(pa).await.is_ok() && aw.flush().await.is_ok() };
+    let w2 = async { bw.write_all(pb).await.is_ok() && bw.flush().await.is_ok() };
+    let r1 = async {
+        let mut got = vec![0u8; pb.len()];
+        ar.read_exact(&mut got).await.is_ok() && got == pb
+    };
+    let r2 = async {
+        let mut got = vec![0u8; pa.len()];
+        br.read_exact(&mut got).await.is_ok() && got == pa
+    };
+    let (a1, a2, a3, a4) = tokio::join!(w1, w2, r1, r2);
+    a1 && a2 && a3 && a4
+}
+
+fn payloads(rng: &mut Rng) -> (Vec<u8>, Vec<u8>) {
+    let la = [0usize, 1, 100, 16384, 16385, 65536][(rng.next() % 6) as usize].max((rng.next() % 4000) as usize);
+    let lb = (rng.next() % 65537) as usize;
+    (rng.bytes(la), rng.bytes(lb))
+}
+
+// ------------------------------------------------------------------------------------------
+// c18: poll-level op scripts
+// ------------------------------------------------------------------------------------------
+struct Conn {
+    acc: char,
+    client: Client,
+    server_io: Option<Mem>,
+    stats: Rc<IoStats>,
+    fut: Option<AnyFut>,
+    stream: Option<AnyStream>,
+    answers: String,
+    done: bool,
+}
+
+fn in_fresh_thread<T: Send + 'static>(limit: usize, f: impl FnOnce() -> T + Send + 'static) -> T {
+    // MAX_CONN is a process-wide static read when the thread-local counter is first used: set it, then use a new thread
+    max_concurrent_tls_connect(limit);
+    std::thread::spawn(f).join().unwrap_or_else(|e| std::panic::resume_unwind(e))
+}
+
+pub fn c18(line: &str, pki: &Pki) -> String {
+    let line = line.to_string();
+    // the PKI is shared read-only with the case's thread
+    let pki: &'static Pki = unsafe { &*(pki as *const Pki) };
+    let lim: usize = field(&line, "lim").unwrap_or("1").parse().unwrap();
+    in_fresh_thread(lim, move || {
+        let rt = tokio::runtime::Builder::new_current_thread().enable_all().start_paused(true).build().unwrap();
+        // unconstrained: Tokio's cooperative budget must not turn our hand-made polls into spurious Pendings
+        rt.block_on(tokio::task::unconstrained(c18_script(&line, pki)))
+    })
+}
+
+async fn c18_script(line: &str, pki: &Pki) -> String {
+    let tr: u64 = field(line, "tr").unwrap_or("3000").parse().unwrap();
+    let to: u64 = field(line, "to").unwrap_or("3000").parse().unwrap();
+    let seed: u64 = field(line, "seed").unwrap_or("1").parse().unwrap();
+    let mut rng = Rng(seed);
+    let (rsvc, osvc) = make_services(pki, tr, to).await;
+    let mut conns: Vec<Conn> = Vec::new();
+    for spec in field(line, "conns").unwrap_or("").split(',').filter(|s| !s.is_empty()) {
+        let mut ch = spec.chars();
+        let acc = ch.next().unwrap();
+        let kind = ch.next().unwrap();
+        let (a, b) = tokio::io::duplex(1 << 17);
+        let server_io = Mem::new(a);
+        let stats = server_io.stats.clone();
+        conns.push(Conn { acc, client: new_client(kind, b, pki), server_io: Some(server_io), stats, fut: None, stream: None, answers: String::new(), done: false });
+    }
+    let mut wakers = Wakers::default();
+    let mut out: Vec<String> = Vec::new();
+    for (idx, tok) in field(line, "ops").unwrap_or("").split('.').filter(|s| !s.is_empty()).enumerate() {
+        let (kind, arg) = tok.split_at(1);
+        let k: usize = arg.parse().unwrap_or(0);
+        let mut t = match kind {
+            "R" => {
+                let w = wakers.make(idx);
+                let mut cx = Context::from_waker(&w);
+                // both services share the thread's counter; ask the one named by the argument (default rustls)
+                let svc = if arg == "o" { &osvc } else { &rsvc };
+                match svc.poll_ready(&mut cx) {
+                    Poll::Ready(true) => format!("R{arg}:1"),
+                    Poll::Ready(false) => format!("R{arg}:err"),
+                    Poll::Pending => format!("R{arg}:0"),
+                }
+            }
+            "C" => {
+                let c = &mut conns[k];
+                match c.server_io.take() {
+                    Some(io) => {
+                        c.fut = Some(if c.acc == 'r' { rsvc.call(io) } else { osvc.call(io) });
+                        format!("C{k}")
+                    }
+                    None => format!("C{k}:misuse"),
+                }
+            }
+            "P" => {
+                let c = &mut conns[k];
+                match c.fut.as_mut() {
+                    Some(f) if !c.done => {
+                        let w = wakers.make(idx);
+                        let mut cx = Context::from_waker(&w);
+                        c.stats.reset();
+                        let r = f.poll(&mut cx);
+                        let h = c.stats.touched();
+                        let res = match r {
+                            Poll::Pending => "pend",
+                            Poll::Ready((o, s)) => {
+                                c.stream = s;
+                                c.done = true;
+                                o.tag()
+                            }
+                        };
+                        if h {
+                            // the handshake's answer to this poll: Done / Failed are what the acceptor handed on;
+                            // Pending must show as a transport operation that blocked
+                            c.answers.push(match res {
+                                "ok" => 'D',
+                                "tls" => 'F',
+                                _ if c.stats.blocked() => 'P',
+                                _ => '?',
+                            });
+                        }
+                        format!("P{k}:{res}/h{}", h as u8)
+                    }
+                    // a finished future is not polled again (rustls/openssl futures panic if one does)
+                    _ => format!("P{k}:misuse"),
+                }
+            }
+            "D" => {
+                let c = &mut conns[k];
+                c.fut = None;
+                c.done = false;
+                format!("D{k}")
+            }
+            "A" => {
+                tokio::time::advance(Duration::from_millis(k as u64)).await;
+                format!("A{k}")
+            }
+            "S" => format!("S{k}:{}", conns[k].client.step()),
+            "G" => format!("G{k}:{}", conns[k].client.garbage(&mut rng)),
+            "X" => {
+                conns[k].client = Client::Gone;
+                format!("X{k}")
+            }
+            "E" => {
+                let c = &mut conns[k];
+                // finish the client's side of the handshake (the server has already sent everything)
+                for _ in 0..20 {
+                    if matches!(c.client.step(), "done" | "up" | "err" | "gone" | "raw") {
+                        break;
+                    }
+                }
+                let (pa, pb) = payloads(&mut rng);
+                let ok = match (c.stream.as_mut(), &mut c.client) {
+                    (Some(srv), Client::RustlsUp(cl)) => spin(Box::pin(exchange(srv, cl, &pa, &pb)), 100_000).unwrap_or(false),
+                    (Some(srv), Client::OsslUp(cl)) => spin(Box::pin(exchange(srv, cl, &pa, &pb)), 100_000).unwrap_or(false),
+                    _ => false,
+                };
+                format!("E{k}:{}", ok as u8)
+            }
+            _ => panic!("bad op {tok}"),
+        };
+        let woken = wakers.take();
+        // wake-ups during client moves / data exchange are transport wake-ups, not part of the acceptor's contract
+        if !woken.is_empty() && !matches!(kind, "S" | "G" | "X" | "E") {
+            t.push('+');
+            t.push_str(&woken.iter().map(|w| format!("w{w}")).collect::<Vec<_>>().join(","));
+        }
+        out.push(t);
+    }
+    let oracle: Vec<String> = conns.iter().enumerate().map(|(k, c)| format!("hs{k}={}", c.answers)).collect();
+    format!("oracle{{{}}}|{}", oracle.join(","), out.join(" "))
+}
+
+// ------------------------------------------------------------------------------------------
+// c18e2e: real tasks under the paused clock
+// ------------------------------------------------------------------------------------------
+/// scripted client for the executor-level run: after `delay` ms (from its arrival) it does `act`:
+///   f = a normal async client: handshake to completion, then echo a payload;  h = send the first flight only, then stall;
+///   g = send garbage;  x = disconnect;  - = stay silent for ever
+async fn e2e_client(kind: char, io: tokio::io::DuplexStream, delay: u64, act: char, pki: &Pki, payload: Vec<u8>, log: Rc<RefCell<Vec<String>>>, k: usize) {
+    if act == '-' {
+        let _keep = io;
+        return std::future::pending::<()>().await;
+    }
+    let mut client = new_client(if act == 'g' { 'n' } else { kind }, io, pki);
+    if delay > 0 {
+        tokio::time::sleep(Duration::from_millis(delay)).await;
+    }
+    match act {
+        'h' => {
+            client.step();
+        }
+        'g' => {
+            client.garbage(&mut Rng(k as u64 + 77));
+        }
+        'x' => return,
+        'f' => {
+            let ok = match client {
+                Client::RustlsHs(f) => match f.await {
+                    Ok(mut s) => echo_once(&mut s, &payload).await,
+                    Err(_) => false,
+                },
+                Client::OsslHs(mut s) => match Pin::new(&mut s).connect().await {
+                    Ok(()) => echo_once(&mut s, &payload).await,
+                    Err(_) => false,
+                },
+                _ => false,
+            };
+            log.borrow_mut().push(format!("c{k}:echo={}", ok as u8));
+            return std::future::pending::<()>().await;
+        }
+        _ => {}
+    }
+    // keep the connection open for ever (a client that stalls must not look like a disconnect)
+    let _keep = client;
+    std::future::pending::<()>().await
+}
+
+async fn echo_once<S: AsyncRead + AsyncWrite + Unpin>(s: &mut S, payload: &[u8]) -> bool {
+    let (mut rd, mut wr) = tokio::io::split(s);
+    let w = async { wr.write_all(payload).await.is_ok() && wr.flush().await.is_ok() };
+    let r = async {
+        let mut got = vec![0u8; payload.len()];
+        rd.read_exact(&mut got).await.is_ok() && got == payload
+    };
+    let (a, b) = tokio::join!(w, r);
+    a && b
+}
+
+pub fn c18e2e(line: &str, pki: &Pki) -> String {
+    let line = line.to_string();
+    let pki: &'static Pki = unsafe { &*(pki as *const Pki) };
+    let lim: usize = field(&line, "lim").unwrap_or("1").parse().unwrap();
+    in_fresh_thread(lim, move || {
+        let rt = tokio::runtime::Builder::new_current_thread().enable_all().start_paused(true).build().unwrap();
+        let local = tokio::task::LocalSet::new();
+        local.block_on(&rt, c18e2e_run(&line, pki))
+    })
+}
+
+/// conns=<acc><client>:<arrival ms>:<delay ms>:<act>,...  One dispatcher task (like a server worker) waits for
+/// readiness, takes the next arrived connection, calls the acceptor and spawns a task awaiting the handshake.
+async fn c18e2e_run(line: &str, pki: &'static Pki) -> String {
+    let tr: u64 = field(line, "tr").unwrap_or("3000").parse().unwrap();
+    let to: u64 = field(line, "to").unwrap_or("3000").parse().unwrap();
+    let seed: u64 = field(line, "seed").unwrap_or("1").parse().unwrap();
+    let (rsvc, osvc) = make_services(pki, tr, to).await;
+    let t0 = tokio::time::Instant::now();
+    let log: Rc<RefCell<Vec<String>>> = Rc::new(RefCell::new(Vec::new()));
+    let (tx, mut rx) = tokio::sync::mpsc::unbounded_channel::<(usize, char, Mem)>();
+    let mut n = 0usize;
+    let mut n_full = 0usize;
+    for (k, spec) in field(line, "conns").unwrap_or("").split(',').filter(|s| !s.is_empty()).enumerate() {
+        n += 1;
+        let mut parts = spec.split(':');
+        let mut ch = parts.next().unwrap().chars();
+        let acc = ch.next().unwrap();
+        let kind = ch.next().unwrap();
+        let arrival: u64 = parts.next().unwrap().parse().unwrap();
+        let delay: u64 = parts.next().unwrap().parse().unwrap();
+        let act = parts.next().unwrap().chars().next().unwrap();
+        if act == 'f' {
+            n_full += 1;
+        }
+        let mut rng = Rng(seed + k as u64);
+        let plen = (rng.next() % 65537) as usize;
+        let payload = rng.bytes(plen);
+        let tx = tx.clone();
+        let log2 = log.clone();
+        tokio::task::spawn_local(async move {
+            if arrival > 0 {
+                tokio::time::sleep(Duration::from_millis(arrival)).await;
+            }
+            let (a, b) = tokio::io::duplex(1 << 17);
+            let _ = tx.send((k, acc, Mem::new(a)));
+            e2e_client(kind, b, delay, act, pki, payload, log2, k).await
+        });
+    }
+    drop(tx);
+    let log3 = log.clone();
+    let dispatcher = tokio::task::spawn_local(async move {
+        let mut parks = 0u32;
+        for _ in 0..n {
+            let mut first = true;
+            std::future::poll_fn(|cx| match rsvc.poll_ready(cx) {
+                Poll::Ready(_) => Poll::Ready(()),
+                Poll::Pending => {
+                    if first {
+                        parks += 1;
+                        first = false;
+                    }
+                    Poll::Pending
+                }
+            })
+            .await;
+            let Some((k, acc, io)) = rx.recv().await else { break };
+            let start = t0.elapsed().as_millis();
+            let fut = if acc == 'r' { rsvc.call(io) } else { osvc.call(io) };
+            let log4 = log3.clone();
+            tokio::task::spawn_local(async move {
+                let (outcome, stream) = fut.await;
+                let end = t0.elapsed().as_millis();
+                log4.borrow_mut().push(format!("s{k}:{start}-{end}:{}", outcome.tag()));
+                if let Some(mut s) = stream {
+                    let mut buf = vec![0u8; 16384];
+                    loop {
+                        match s.read(&mut buf).await {
+                            Ok(0) | Err(_) => break,
+                            Ok(n) => {
+                                if s.write_all(&buf[..n]).await.is_err() || s.flush().await.is_err() {
+                                    break;
+                                }
+                            }
+                        }
+                    }
+                }
+            });
+        }
+        log3.borrow_mut().push(format!("parks={parks}"));
+    });
+    // everything happens in virtual time; 600 virtual seconds bound a run that got stuck
+    let stuck = tokio::time::sleep(Duration::from_millis(600_000));
+    tokio::pin!(stuck);
+    let all = async {
+        loop {
+            {
+                let l = log.borrow();
+                let n_out = l.iter().filter(|x| x.starts_with('s')).count();
+                let n_ok = l.iter().filter(|x| x.starts_with('s') && x.ends_with(":ok")).count();
+                let n_echo = l.iter().filter(|x| x.starts_with('c')).count();
+                if n_out == n && n_echo >= n_ok.min(n_full) && l.iter().any(|x| x.starts_with("parks")) {
+                    break;
+                }
+            }
+            tokio::time::sleep(Duration::from_millis(1)).await;
+        }
+    };
+    tokio::select! {
+        () = all => {}
+        () = &mut stuck => { log.borrow_mut().push("STUCK".into()); }
+    }
+    dispatcher.abort();
+    let mut l = log.borrow().clone();
+    l.sort();
+    l.join(" ")
+}
